@@ -1,100 +1,1 @@
-import SynthVerif.Src.Prelude
-import SynthVerif.Src.Deps
-import SynthVerif.Gen.Src.phase_accumulator
-import SynthVerif.Gen.Src.utils
-/-! GENERATED by tools/rs2lean.py from /repo/src/lfo.rs on every run.  Do not edit. -/
-set_option linter.unusedVariables false
-open F32 Rs
-namespace Src.lfo
-
-def TOT_NUM_ACCUM_BITS : Nat := 24
-
-def NUM_LUT_INDEX_BITS? : Option Nat := do
-  let t1 ← Src.utils.ilog_2 Gen.sineLutSize
-  pure t1
-def NUM_LUT_INDEX_BITS : Nat := (NUM_LUT_INDEX_BITS?).getD default
-
-structure Lfo where
-  phase_accumulator : (Src.phase_accumulator.PhaseAccumulator Src.lfo.TOT_NUM_ACCUM_BITS Src.lfo.NUM_LUT_INDEX_BITS)
-deriving Inhabited
-
-inductive Waveshape where
-  | Sine
-  | Triangle
-  | UpSaw
-  | DownSaw
-  | Square
-deriving DecidableEq, Repr, Inhabited
-
-def Lfo.new (sample_rate_hz : F32) : Option Src.lfo.Lfo := do
-  let t1 ← Src.phase_accumulator.PhaseAccumulator.new (TOTAL_NUM_BITS := Src.lfo.TOT_NUM_ACCUM_BITS) (NUM_INDEX_BITS := Src.lfo.NUM_LUT_INDEX_BITS) sample_rate_hz
-  return ({ phase_accumulator := t1 } : Src.lfo.Lfo)
-
-def Lfo.tick (self₀ : Src.lfo.Lfo) : Option Src.lfo.Lfo := do
-  let mut self := self₀
-  let t1 ← Src.phase_accumulator.PhaseAccumulator.tick self.phase_accumulator
-  self := { self with phase_accumulator := t1 }
-  return self
-
-def Lfo.set_frequency (self₀ : Src.lfo.Lfo) (freq : F32) : Option Src.lfo.Lfo := do
-  let mut self := self₀
-  let t1 ← Src.phase_accumulator.PhaseAccumulator.set_frequency self.phase_accumulator freq
-  self := { self with phase_accumulator := t1 }
-  return self
-
-def Lfo.reset (self₀ : Src.lfo.Lfo) : Option Src.lfo.Lfo := do
-  let mut self := self₀
-  let t1 ← Src.phase_accumulator.PhaseAccumulator.reset self.phase_accumulator
-  self := { self with phase_accumulator := t1 }
-  return self
-
-def Lfo.set_phase (self₀ : Src.lfo.Lfo) (phase : F32) : Option Src.lfo.Lfo := do
-  let mut self := self₀
-  let t1 ← Src.phase_accumulator.PhaseAccumulator.set_phase self.phase_accumulator phase
-  self := { self with phase_accumulator := t1 }
-  return self
-
-def Lfo.get.go (fuel : Nat) (self : Src.lfo.Lfo) (waveshape : Src.lfo.Waveshape) : Option F32 :=
-  match fuel with
-  | 0 => none
-  | fuel + 1 => do
-    match waveshape with
-    | .Sine =>
-      let t1 ← Src.phase_accumulator.PhaseAccumulator.index self.phase_accumulator
-      let lut_idx : Nat := t1
-      let t2 ← uadd Usize.bound lut_idx 1
-      let t3 ← urem t2 Gen.sineLutSize
-      let next_lut_idx : Nat := t3
-      let t4 ← tbl Gen.sineBits lut_idx
-      let y0 : F32 := t4
-      let t5 ← tbl Gen.sineBits next_lut_idx
-      let y1 : F32 := t5
-      let t6 ← Src.phase_accumulator.PhaseAccumulator.fraction self.phase_accumulator
-      let t7 ← Src.utils.linear_interp y0 y1 t6
-      return t7
-    | .Triangle =>
-      let t8 ← Src.phase_accumulator.PhaseAccumulator.ramp self.phase_accumulator
-      let raw_ramp : F32 := (F32.mul t8 (lit 4))
-      if (F32.lt raw_ramp (lit 1)) then
-        return raw_ramp
-      else
-        if (F32.lt raw_ramp (lit 3)) then
-          return (F32.sub (lit 2) raw_ramp)
-        else
-          return (F32.sub raw_ramp (lit 4))
-    | .UpSaw =>
-      let t9 ← Src.phase_accumulator.PhaseAccumulator.ramp self.phase_accumulator
-      return (F32.sub (F32.mul t9 (lit 2)) (lit 1))
-    | .DownSaw =>
-      let t10 ← Src.lfo.Lfo.get.go fuel self Src.lfo.Waveshape.UpSaw
-      return (F32.neg t10)
-    | .Square =>
-      let t11 ← Src.phase_accumulator.PhaseAccumulator.ramp self.phase_accumulator
-      if (F32.lt t11 (lit (1 / 2))) then
-        return (lit 1)
-      else
-        return (F32.neg (lit 1))
-def Lfo.get (self : Src.lfo.Lfo) (waveshape : Src.lfo.Waveshape) : Option F32 := Lfo.get.go recFuel self waveshape
-
-
-end Src.lfo
+/-! GENERATED: lfo.rs could not be read: Unsupported: parser: expected ';' after expression, found 'lookup_tables' -/
